@@ -592,6 +592,9 @@ def run(ctx):
     ctx.violations.clear()
     for F in FAMILIES:
         core.run_family(ctx, F())
+    conc = [i for i in list(Indexing().inputs(ctx))[::97] if i['cont'] != 'hdf5'][:150]
+    core.run_concurrent(ctx, Indexing(), conc, secs=3 if ctx.tier == 'quick' else 15, name='concurrent-callers')
+    core.run_concurrent(ctx, RandomMutations(), list(RandomMutations().inputs(ctx))[:40], secs=2 if ctx.tier == 'quick' else 10, name='concurrent-mutation-histories')
     replay_spec_histories(ctx)
     ctx.assumptions += ['signature contents are shipped verbatim (small ints); selected positions are identified by content',
                         'step 0 slices: ValueError accepted (what a plain list raises)']
